@@ -381,7 +381,7 @@ def gen_merge_err(rng):
     """Sequences around the refusal conditions (both sides of every threshold) and the argument errors."""
     what = rng.choice(['orient-below', 'orient-above', 'orient-far', 'tilt-below', 'tilt-above', 'zero-step', 'neg-step', 'swap', 'dup',
                        'offaxis-below', 'offaxis-above', 'offaxis-far', 'nonsingular', 'dim-range', 'slices-differ', 'default-dim',
-                       'single', 'shape-mismatch', 'n1-region'])
+                       'single', 'shape-mismatch', 'n1-region', 'joined-tilt-own', 'joined-tilt-own', 'joined-tilt-old', 'inplane-rot'])
     c = gen_merge_ok(rng, n=rng.randint(3, 4) if what in ('swap', 'dup') else None,
                      dim=rng.randrange(3) if what in ('zero-step', 'neg-step', 'swap', 'dup') else None)
     dim, ws = c['dim'], c['ws']
@@ -497,6 +497,45 @@ def gen_merge_err(rng):
                 sh2[dim] = 1
         ws[i]['img'] = mk_I(rng, sh2, ws[i]['img']['aff'], ws[i]['img']['slice'], 7000)
         ws[i]['ext'] = None
+    elif what in ('joined-tilt-own', 'joined-tilt-old', 'inplane-rot'):
+        # orientation of the JOINED (spatial) axis: some later input has a clearly different joined-axis column
+        # (all other columns equal) and sits (own) on its own tilted axis -- geometrically self-consistent, so only the
+        # comparison with the first input can refuse it -- or (old) along the first input's direction; (inplane-rot) the
+        # joined column is kept and the two other axes are rotated in their plane.  All vectors: integer, length 5, x 1/4.
+        dim = rng.randrange(3)
+        sh = pick_merge_shape(rng, dim)
+        V5 = [(5, 0, 0), (0, 5, 0), (0, 0, 5), (3, 4, 0), (4, 3, 0), (0, 3, 4), (0, 4, 3), (3, 0, 4), (4, 0, 3), (-4, 3, 0), (0, -4, 3),
+              (-3, 0, 4), (-5, 0, 0), (0, 0, -5)]
+        tri = [list(v) for v in rng.choice([[(5, 0, 0), (0, 5, 0), (0, 0, 5)], [(3, 4, 0), (-4, 3, 0), (0, 0, 5)],
+                                             [(0, 3, 4), (0, -4, 3), (5, 0, 0)], [(4, 0, 3), (-3, 0, 4), (0, 5, 0)]])]
+        rng.shuffle(tri)
+        q = 0.25 * rng.choice([1, 2, 4])
+        base = [[q * tri[j][i] for j in range(3)] + [rng.choice(TRANS)] for i in range(3)] + [[0.0, 0.0, 0.0, 1.0]]
+        n = rng.randint(2, 4)
+        u0 = col(base, dim)
+        others = [a for a in range(3) if a != dim]
+        if what == 'inplane-rot':
+            # (o0, o1) -> (3 o0 + 4 o1, -4 o0 + 3 o1) / 5 : a rotation by atan(4/3) in the plane of the two other axes
+            o0, o1 = col(base, others[0]), col(base, others[1])
+            rot = with_col(with_col(base, others[0], [(3 * x + 4 * y) / 5.0 for x, y in zip(o0, o1)]),
+                           others[1], [(-4 * x + 3 * y) / 5.0 for x, y in zip(o0, o1)])
+            if any(Fr(v).denominator > 64 for r in rot for v in r):      # keep every entry dyadic
+                rot = with_col(with_col(base, others[0], o1), others[1], [-x for x in o0])   # quarter turn instead
+        cands = [v for v in V5 if abs(sum(a * b for a, b in zip(v, u0))) < 0.95 * 5 * math.sqrt(sum(b * b for b in u0))]
+        tilt = [q * x for x in rng.choice(cands)]
+        tilted = set(rng.sample(range(1, n), rng.randint(1, n - 1)))
+        ws, A_prev = [], None
+        for i in range(n):
+            Ai = base
+            if i in tilted:
+                Ai = rot if what == 'inplane-rot' else with_col(base, dim, tilt)
+            step = col(Ai, dim) if what == 'joined-tilt-own' else u0
+            k = rng.choice([1.0, 1.0, 2.0, 0.5])
+            pos = col(base, 3) if A_prev is None else [p + k * x for p, x in zip(col(A_prev, 3), step)]
+            Ai = with_col(Ai, 3, pos)
+            A_prev = Ai
+            ws.append({'img': mk_I(rng, sh, Ai, rng.choice([dim, dim, others[0], None]) if i == 0 else ws[0]['img']['slice'], 1100 * i), 'ext': None})
+        c.update(ws=ws, dim=dim)
     elif what == 'n1-region':
         # open finding N1: 4-D inputs with T = 1 merged along dim 4 (KeyError 'time' from the extension merge)
         sh = gen_img_shape(rng, 4, singular=3)
